@@ -274,6 +274,16 @@ def find_tasks_in_param(param_value: Any, searched_coll_ids: Optional[set[int]] 
     raise TaskError(msg)
 
 
+def get_direct_dependency_instances(task: Task) -> list[Task]:
+    """Return every task object found directly in the attributes of the
+    given task, including separate objects that are equal to each other."""
+    return [
+        dependency_task
+        for field in fields(task)
+        for dependency_task in find_tasks_in_param(getattr(task, field.name))
+    ]
+
+
 def get_direct_dependencies(task: Task) -> OrderedSet[Task]:
     """Return an OrderedSet of tasks that are direct (first-level)
     dependencies of the given task in its attributes."""
